@@ -576,6 +576,9 @@ TRUSTED_BASE = [
     'the harness /verif/harness (handler-mode tx atomicity re-implementation), the comparer /verif/tools/compare.py',
     'hand-written models of dependencies: cosmossdk.io/math Int/LegacyDec, sdk.Coins, x/bank send/mint, x/distribution fee sweep and community pool, x/params Subspace.Update/Modified, cachekv snapshot iterators, PrefixEndBytes, Go time.Format (Hinnant civil-from-days), signature verification as an oracle bit',
     'modelled rather than verified: all hub keeper/handler/hook/genesis/query code is modelled by hand (lean/Hub/Model) and tied by the correspondence check on seeded histories',
+    'the loader of implementation states (lean/Hub/Model/Load.lean) and the monitor loop (hubmodel --implmon); the per-property projections and failing-input rules (tools/propdefs.py, section_relevant / concrete_failure in check.py, round-trip analysis in tools/compare.py)',
+    'test operations of the line protocol that are not operations of the configuration domain: jump (the keepers own SetCount, forwards only; Props/C18Jump shows the invariants survive it), inspect (every listing getter under recover)',
+    'JSON: the text layer (encoding/json) and the reading of gogoproto jsonpb / ProtoCodec behind lean/Hub/SDK/ProtoJson.lean (validated by probe19: tree and predicted outcome compared on every generated value)',
 ]
 
 
